@@ -46,21 +46,25 @@ pub fn main(args: &[String]) {
         let ni = n_imp_funcs(&a); let nfuncs = ni + a.funcs.len();
         // the body that is built is the body the function gets: also the EMPTY body (only possible for a function without results) and a one-instruction body
         for fidx in 0..ni { let sig = crate_sig(&a, fidx as u32); if !sig.1.is_empty() { continue; }
-            for shape in 0..3u8 { let res = catch(|| -> Option<(usize, Vec<String>)> {
+            for shape in 0..4u8 { let res = catch(|| -> Option<(usize, Vec<String>)> {
                     let (mut m, pm) = crate::irdump::parse_with_maps(wasm, &mut cfg.module_config()).ok()?; let fid_ix = pm.funcs[fidx]; let fid = m.funcs.iter().find(|f| f.id().index() == fid_ix).unwrap().id();
                     // shape 2: the body uses a scratch local that was allocated BEFORE the edit (the closure cannot reach module.locals), so its id is lower than the new parameters' ids
                     let scratch = if shape == 2 { Some(m.locals.add(walrus::ValType::I64)) } else { None };
-                    let nid = m.replace_imported_func(fid, |(b, _args)| { if shape == 1 { b.i32_const(MARKER); b.drop(); } if let Some(l) = scratch { b.i64_const(MARKER as i64); b.local_set(l); b.local_get(l); b.drop(); } }).ok()?;
+                    // shape 3: the import ENTRY of the function is deleted and added again under another module name before the edit (the function's own record of
+                    // "its" import entry is then out of date): the edit must remove the entry that imports the function NOW
+                    if shape == 3 { let old = m.imports.get_imported_func(fid)?.id(); m.imports.delete(old); m.imports.add("verif-moved", "f", fid); }
+                    let nid = m.replace_imported_func(fid, |(b, _args)| { if shape == 1 || shape == 3 { b.i32_const(MARKER); b.drop(); } if let Some(l) = scratch { b.i64_const(MARKER as i64); b.local_set(l); b.local_get(l); b.drop(); } }).ok()?;
                     let lf = m.funcs.get(nid).kind.unwrap_local(); let n_ir = lf.block(lf.entry_block()).instrs.len();
                     let (rec, em) = crate::irdump::IndexRecorder::for_module(&m); m.customs.add(rec); let o = m.emit_wasm(); let em = em.lock().unwrap().clone();
                     let b = amod::decode(&o).ok()?; let nib = n_imp_funcs(&b); let ix = *em.funcs.get(&nid.index())? as usize; let body = b.code.get(ix.checked_sub(nib)?)?;
+                    if shape == 3 && (b.imports.iter().any(|i| i.0 == "verif-moved") || nib + 1 != ni) { return Some((n_ir, vec![format!("imports after the edit: {:?}", b.imports.iter().map(|i| format!("{}.{}", i.0, i.1)).collect::<Vec<_>>())])); }
                     if shape == 2 { // the scratch local is the one declared local, right after the parameters
                         let np = sig.0.len() as u32; let want_ops = format!("[I64Const {{ value: {} }}, LocalSet {{ local_index: {} }}, LocalGet {{ local_index: {} }}, Drop, End]", MARKER as i64, np, np);
                         let mut got = vec![]; let mut decl = vec![];
                         for p in wasmparser::Parser::new(0).parse_all(&o) { if let Ok(wasmparser::Payload::CodeSectionEntry(bd)) = p { if got.len() == ix - nib { decl = bd.get_locals_reader().ok()?.into_iter().filter_map(|x| x.ok()).collect(); let ops: Vec<_> = bd.get_operators_reader().ok()?.into_iter().filter_map(|x| x.ok()).collect(); got.push(format!("{:?}", ops)); } else { got.push(String::new()); } } }
                         if got.get(ix - nib) != Some(&want_ops) || decl != vec![(1, wasmparser::ValType::I64)] { return Some((n_ir, vec![format!("locals {:?} body {}", decl, got.get(ix - nib).cloned().unwrap_or_default())])); } }
                     Some((n_ir, body.ops.iter().map(|o| o.2.to_string()).collect())) });
-                let want: Vec<String> = if shape == 1 { vec!["I32Const".into(), "Drop".into(), "End".into()] } else if shape == 2 { vec!["I64Const".into(), "LocalSet".into(), "LocalGet".into(), "Drop".into(), "End".into()] } else { vec!["End".into()] };
+                let want: Vec<String> = if shape == 1 || shape == 3 { vec!["I32Const".into(), "Drop".into(), "End".into()] } else if shape == 2 { vec!["I64Const".into(), "LocalSet".into(), "LocalGet".into(), "Drop".into(), "End".into()] } else { vec!["End".into()] };
                 match res { Some(Some((n_ir, ops))) => if ops != want || n_ir != want.len() - 1 { viol.push(v("edit-body-is-not-the-body-that-was-built", "C18", format!("{}: replace_imported_func on function {} with a body of {} instruction(s): the function holds {} instruction(s) and is emitted as {:?}", name, fidx, want.len() - 1, n_ir, ops), wasm)); },
                     Some(None) => {}, None => viol.push(v("edit-panics", "C18 C02", format!("{}: replace_imported_func on function {} with a body of {} instruction(s) panics", name, fidx, want.len() - 1), wasm)) } }
             break; }
